@@ -2,6 +2,7 @@ package main
 
 import (
 	"fmt"
+	"strconv"
 	"strings"
 
 	"vg/prog"
@@ -29,7 +30,7 @@ var surroundDecls = []string{
 	"const (\n\tk%[1]da = iota\n\tk%[1]db\n\tk%[1]dc = \"x\" + \"y\"\n)\n",
 	"var tbl%[1]d = map[string][]int{\n\t\"a\": {1, 2, 3},\n\t\"b\": nil,\n}\n",
 	"type num%[1]d interface {\n\t~int | ~int64 | ~float64\n}\n\nfunc sum%[1]d[T num%[1]d](xs ...T) (s T) {\n\tfor _, x := range xs {\n\t\ts += x\n\t}\n\treturn s\n}\n",
-	"// doc comment for init\nfunc init() {\n\tif len(tbl0) > 100 {\n\t\tpanic(\"unreachable\")\n\t}\n}\n",
+	"// doc comment for init\nfunc init() {\n\tif len(tblinit) > 100 {\n\t\tpanic(\"unreachable\")\n\t}\n}\n",
 	"type iface%[1]d interface {\n\tDo(context.Context) error\n}\n\ntype impl%[1]d struct{ n int }\n\nfunc (i *impl%[1]d) Do(ctx context.Context) error {\n\tselect {\n\tcase <-ctx.Done():\n\t\treturn ctx.Err()\n\tdefault:\n\t}\n\ti.n++\n\treturn nil\n}\n\nvar _ iface%[1]d = (*impl%[1]d)(nil)\n",
 	"func closure%[1]d() func() int {\n\tn := 0\n\treturn func() int {\n\t\tdefer func() { n++ }()\n\t\treturn n\n\t}\n}\n",
 	"/* block comment\n   spanning lines */\nvar (\n\tarr%[1]d = [...]string{2: \"c\", 0: \"a\"}\n\tfn%[1]d  = func(a, b int) int { return a<<2 | b&^1 }\n)\n",
@@ -42,6 +43,12 @@ var surroundStmts = []string{
 	"\tch%[1]d := make(chan int, 1)\n\tselect {\n\tcase ch%[1]d <- 1:\n\tdefault:\n\t}\n\ttotal += <-ch%[1]d\n",
 	"\t{\n\t\ttotal := total // shadow\n\t\ttotal *= 2\n\t\t_ = total\n\t}\n",
 	"\tif x := len(\"abc\"); x > 2 && total >= 0 {\n\t\ttotal += x\n\t} else if x < 0 {\n\t\tgoto done%[1]d\n\t}\ndone%[1]d:\n",
+}
+
+// subst replaces the %[1]d markers of a surrounding-code template by k
+// (templates contain literal % operators, so they are not format strings).
+func subst(tpl string, k int) string {
+	return strings.ReplaceAll(tpl, "%[1]d", strconv.Itoa(k))
 }
 
 // smallDirective prints a self-contained directive over basic types; k makes
@@ -79,7 +86,8 @@ func genStaticFile(r *prog.Rand, pkg, fname string, fileIdx int, header string) 
 	default:
 		imports = append(imports, "\"go.uber.org/cff\"")
 	}
-	if r.Chance(1, 3) {
+	hasFmt := r.Chance(1, 3)
+	if hasFmt {
 		imports = append(imports, "\"fmt\"")
 	}
 	b.WriteString("import (\n")
@@ -87,25 +95,23 @@ func genStaticFile(r *prog.Rand, pkg, fname string, fileIdx int, header string) 
 		b.WriteString("\t" + i + "\n")
 	}
 	b.WriteString(")\n\n")
-	if r.Chance(1, 3) {
+	if hasFmt {
 		b.WriteString("var _ = fmt.Sprint\n\n")
-		if !strings.Contains(strings.Join(imports, " "), "fmt") {
-			b.Reset()
-			return genStaticFile(r, pkg, fname, fileIdx, header)
-		}
 	}
 	b.WriteString("var _ = strings.Repeat\n\n")
 	tag := fileIdx * 100
+	initDone := false
 	nd := r.Intn(4)
 	for i := 0; i < nd; i++ {
 		d := surroundDecls[r.Intn(len(surroundDecls))]
-		if strings.Contains(d, "tbl0") && !(fileIdx == 0) {
+		if strings.Contains(d, "tblinit") && (fileIdx != 0 || initDone) {
 			continue
 		}
-		fmt.Fprintf(&b, d+"\n", tag+i)
+		b.WriteString(subst(d, tag+i) + "\n")
 		if strings.Contains(d, "func init()") {
-			// init refers to tbl0: make sure it exists in this file
-			fmt.Fprintf(&b, "var tbl0 = map[string]int{}\n\n")
+			// init refers to tblinit: declare it (once per package)
+			b.WriteString("var tblinit = map[string]int{}\n\n")
+			initDone = true
 		}
 	}
 	nf := 1 + r.Intn(3)
@@ -116,7 +122,7 @@ func genStaticFile(r *prog.Rand, pkg, fname string, fileIdx int, header string) 
 		ndir := 1 + r.Intn(3)
 		for d := 0; d < ndir; d++ {
 			if r.Chance(1, 2) {
-				fmt.Fprintf(&b, surroundStmts[r.Intn(len(surroundStmts))], k)
+				b.WriteString(subst(surroundStmts[r.Intn(len(surroundStmts))], k))
 				k++
 			}
 			st, _ := smallDirective(r, k, cffName, ctxName)
@@ -125,7 +131,7 @@ func genStaticFile(r *prog.Rand, pkg, fname string, fileIdx int, header string) 
 			sf.Directives++
 		}
 		if r.Chance(1, 2) {
-			fmt.Fprintf(&b, surroundStmts[r.Intn(len(surroundStmts))], k)
+			b.WriteString(subst(surroundStmts[r.Intn(len(surroundStmts))], k))
 			k++
 		}
 		b.WriteString("\treturn total, nil\n}\n\n")
@@ -133,10 +139,10 @@ func genStaticFile(r *prog.Rand, pkg, fname string, fileIdx int, header string) 
 	nd = r.Intn(3)
 	for i := 0; i < nd; i++ {
 		d := surroundDecls[r.Intn(len(surroundDecls))]
-		if strings.Contains(d, "tbl0") {
+		if strings.Contains(d, "tblinit") {
 			continue
 		}
-		fmt.Fprintf(&b, d+"\n", tag+50+i)
+		b.WriteString(subst(d, tag+50+i) + "\n")
 	}
 	// a non-directive use of the cff package must survive untouched
 	fmt.Fprintf(&b, "var emitters%d = %s.EmitterStack(%s.NopEmitter())\n", fileIdx, cffName, cffName)
